@@ -207,9 +207,15 @@ class NonComponentForms(Base):
 
     def setup(self, c):
         cls = flowir_cls(c)
-        form = c.choice('form', 3)
+        form = c.choice('form', 5)
         method = METHODS[c.choice('method', len(METHODS))]
-        if form == 0:
+        if form == 3:
+            # a variable producer stays a non-component also when the reference carries an explicit stage
+            value = S('stage', numeral(c, c.int('k')), '.', '%(gen)s/out.csv:' + method)
+        elif form == 4:
+            value = S('stage', numeral(c, c.int('k')), '.', c.atom('prefix', 'Simulate', excludes=NAME_EXCL, first_not_digit=True),
+                      '%(replica)s:' + method)
+        elif form == 0:
             value = S('/', c.atom('absdir', 'tmp', excludes=FILE_EXCL + '/.'), '/', c.atom('absfile', 'f', excludes=FILE_EXCL + '/.'), '.txt', ':', method)
         elif form == 1:
             value = '%(input_dir)s/file.txt:' + method
